@@ -61,6 +61,12 @@ HARNESSES: Dict[str, dict] = {
     "H11-message-shapes": {
         "pre": [("c.1", 0, "bare")], "pubs": [[("c.1", 0, "data"), ("c.1", 1, "bare"), ("c.1", 2, "ctx")], [("c.1", 0, "meta"), ("c.2", 1, "bare-none")]],
         "subs": ["c.*"], "drain": ["*"]},
+    # participants that connect() / close() the shared transport object while others use it (what a master and its workers do at
+    # start and exit): connection management is not message management
+    "H12-connect-and-close-around-traffic": {
+        "pre": [("c.1", 0)], "pubs": [[("@close",), ("c.1", 0), ("@connect",), ("c.1", 1)], [("@connect",), ("c.2", 0), ("@close",)]], "subs": ["c.*"], "drain": ["*"]},
+    "H13-publish-before-anyone-connects": {
+        "pre": [("c.1", 0), ("c.2", 0)], "pubs": [[("@connect",), ("c.1", 0)], [("@connect",), ("@close",), ("@connect",)]], "subs": [], "preopen": ["c.2"], "drain": ["*"]},
     "H10-preopened-exact-and-concurrent-subscriber": {
         "pre": [], "pubs": [[("c.1", 0)], [("c.1", 0)]], "subs": ["c.?"], "preopen": ["c.1"], "drain": ["*"]},
 }
@@ -108,8 +114,15 @@ def run_harness(name: str, prefix: List[int]) -> sched.Execution:
         for pi, script in enumerate(h["pubs"]):
             def pub(script=script, pi=pi):
                 for item in script:
-                    send(item[0], f"P{pi}", item[1], *item[2:])
+                    if item[0] == "@connect":
+                        t.connect()
+                    elif item[0] == "@close":
+                        t.close()
+                    else:
+                        send(item[0], f"P{pi}", item[1], *item[2:])
             for item in script:
+                if item[0].startswith("@"):
+                    continue
                 published.append((item[0], f"P{pi}", item[1]) if not (len(item) > 2 and item[2].startswith("bare")) else BARE)
             s.spawn(tid, pub)
             tid += 1
@@ -139,6 +152,8 @@ def run_harness(name: str, prefix: List[int]) -> sched.Execution:
 def judge(x: sched.Execution) -> Optional[Tuple[str, str]]:
     if x.deadlock:
         return ("deadlock", "no thread enabled while some thread has not finished")
+    if x.livelock:
+        return ("livelock", "threads keep running without finishing (step horizon exceeded)")
     o = x.obs
     if o["errors"]:
         return ("thread-raised", f"a harness thread raised: {o['errors']}")
@@ -211,13 +226,13 @@ def check(tier: str, seed: int) -> Result:
     if tier == "quick":
         plan = [("H1-two-publishers-new-channel", 2), ("H2-publishers-and-subscriber", 1), ("H3-routing-two-channels", 1),
                 ("H4-existing-channel", 1), ("H6-two-subscribers", 1), ("H7-one-message-each-two-new-channels", 1),
-                ("H8-one-publisher-one-subscriber", 2), ("H9-subscription-opened-before-channels-exist", 1), ("H10-preopened-exact-and-concurrent-subscriber", 1), ("H11-message-shapes", 1)]
+                ("H8-one-publisher-one-subscriber", 2), ("H9-subscription-opened-before-channels-exist", 1), ("H10-preopened-exact-and-concurrent-subscriber", 1), ("H11-message-shapes", 1), ("H12-connect-and-close-around-traffic", 1), ("H13-publish-before-anyone-connects", 1)]
         cap = 400000
     else:
         plan = [("H1-two-publishers-new-channel", 3), ("H2-publishers-and-subscriber", 3), ("H3-routing-two-channels", 2),
                 ("H4-existing-channel", 3), ("H5-three-publishers", 2), ("H6-two-subscribers", 2),
                 ("H7-one-message-each-two-new-channels", 3), ("H8-one-publisher-one-subscriber", 3),
-                ("H9-subscription-opened-before-channels-exist", 2), ("H10-preopened-exact-and-concurrent-subscriber", 3), ("H11-message-shapes", 2)]
+                ("H9-subscription-opened-before-channels-exist", 2), ("H10-preopened-exact-and-concurrent-subscriber", 3), ("H11-message-shapes", 2), ("H12-connect-and-close-around-traffic", 2), ("H13-publish-before-anyone-connects", 2)]
         cap = 3000000
     jobs = []
     per: Dict[str, dict] = {}
